@@ -2597,7 +2597,13 @@ class LazyStackedTensorDict(TensorDictBase):
         further_reduce: bool,
         **kwargs,
     ):
-        if further_reduce:
+        if further_reduce and (dim is NO_DEFAULT or dim == "feature"):
+            # keyword arguments meant for the torch reduction (dtype, correction, ...)
+            reduce_kwargs = {
+                key: val
+                for key, val in kwargs.items()
+                if key not in ("values_only", "call_on_nested", "batch_size")
+            }
             if dim is NO_DEFAULT:
                 # It is not very memory-efficient to do this, but it's the easiest to cover all use cases
                 agglomerate = [
@@ -2607,35 +2613,28 @@ class LazyStackedTensorDict(TensorDictBase):
                     )
                 ]
                 agglomerate = torch.cat(agglomerate, dim=-1)
-                return getattr(torch, reduction_name)(agglomerate)
-            elif dim == "feature":
+                return getattr(torch, reduction_name)(agglomerate, **reduce_kwargs)
 
-                def proc_val(val):
-                    val = val.contiguous()
-                    if val.ndim > self.ndim:
-                        val = val.flatten(self.ndim, -1)
-                    else:
-                        val = val.unsqueeze(-1)
-                    return val
+            def proc_val(val):
+                val = val.contiguous()
+                if val.ndim > self.ndim:
+                    val = val.flatten(self.ndim, -1)
+                else:
+                    val = val.unsqueeze(-1)
+                return val
 
-                agglomerate = [
-                    proc_val(val)
-                    for val in self.values(
-                        True,
-                        True,
-                    )
-                ]
-                dim = -1
-                cat_dim = -1
-                keepdim = False
-            else:
-                agglomerate = [
-                    val.contiguous().unsqueeze(self.stack_dim)
-                    for val in self.values(True, True)
-                ]
-                cat_dim = self.stack_dim
-            agglomerate = torch.cat(agglomerate, dim=cat_dim)
-            return getattr(torch, reduction_name)(agglomerate, dim=dim, keepdim=keepdim)
+            agglomerate = [
+                proc_val(val)
+                for val in self.values(
+                    True,
+                    True,
+                )
+            ]
+            agglomerate = torch.cat(agglomerate, dim=-1)
+            return getattr(torch, reduction_name)(
+                agglomerate, dim=-1, keepdim=False, **reduce_kwargs
+            )
+        # an explicit batch dim (with or without reduce=True): same as a regular tensordict
 
         try:
             td: TensorDict = self.to_tensordict()
